@@ -26,7 +26,32 @@ def _is_mutable_literal(e: ast.AST) -> bool:
 
 def module_mutables(tree: Tree, short: str) -> Dict[str, ast.AST]:
     m = tree.module(short)
-    return {k: v for k, v in m.assigns.items() if _is_mutable_literal(v)}
+    out = {k: v for k, v in m.assigns.items() if _is_mutable_literal(v)}
+    # module-level aliases (`a = b` with b a mutable module object) denote the same object
+    changed = True
+    while changed:
+        changed = False
+        for k, v in m.assigns.items():
+            if k not in out and isinstance(v, ast.Name) and v.id in out:
+                out[k] = out[v.id]
+                changed = True
+    return out
+
+
+def module_alias_classes(tree: Tree, short: str) -> Dict[str, Set[str]]:
+    m = tree.module(short)
+    muts = module_mutables(tree, short)
+    root: Dict[str, str] = {}
+    for k in muts:
+        v = m.assigns.get(k)
+        seen = set()
+        cur = k
+        while isinstance(v, ast.Name) and v.id in muts and v.id not in seen:
+            seen.add(v.id)
+            cur = v.id
+            v = m.assigns.get(cur)
+        root[k] = cur
+    return {k: {j for j in muts if root[j] == root[k]} for k in muts}
 
 
 def rule_D6_reinit(tree: Tree) -> RuleResult:
@@ -38,30 +63,45 @@ def rule_D6_reinit(tree: Tree) -> RuleResult:
     if len(muts) < 1:
         r.notes.append("no module-level mutable objects in main.py")
     cg = CallGraph.of(tree)
+    classes = module_alias_classes(tree, "main")
+
+    def _mutations(name: str):
+        out = []
+        for n in cfg.nodes:
+            if n.kind != "stmt":
+                continue
+            for c in ast.walk(n.ast):
+                if isinstance(c, ast.Call) and isinstance(c.func, ast.Attribute) and dotted(c.func.value) == name and c.func.attr in MUTATORS and c.func.attr != "clear":
+                    out.append(n)
+                if isinstance(c, ast.Call):
+                    for arg in list(c.args) + [k.value for k in c.keywords]:
+                        if dotted(arg) == name:
+                            cs = cg.site(c)
+                            if cs and cs.callees and _callee_mutates_param(cs.callees[0], c, arg):
+                                out.append(n)
+        return out
+    mutated = {name: _mutations(name) for name in muts}
+
+    def _fresh(value: ast.AST) -> bool:
+        # the re-initialisation value must not be (an alias of) a module object that run() mutates — in particular not the object being reset
+        for x in ast.walk(value):
+            if isinstance(x, ast.Name) and x.id in muts and not _is_local(run, x.id) and any(mutated[j] for j in classes[x.id]):
+                return False
+        return True
     for name, init in sorted(muts.items()):
-        # is it mutated from run()? (directly or by being passed to a callee that mutates its parameter)
-        mutated_at = []
+        mutated_at = mutated[name]
         reset_at = []
         for n in cfg.nodes:
             if n.kind != "stmt":
                 continue
             a = n.ast
             for c in ast.walk(a):
-                if isinstance(c, ast.Call) and isinstance(c.func, ast.Attribute) and dotted(c.func.value) == name:
-                    if c.func.attr in ("clear",):
-                        reset_at.append(n)
-                    elif c.func.attr in MUTATORS:
-                        mutated_at.append(n)
-                if isinstance(c, ast.Call):
-                    for i, arg in enumerate(list(c.args) + [k.value for k in c.keywords]):
-                        if dotted(arg) == name:
-                            cs = cg.site(c)
-                            if cs and cs.callees and _callee_mutates_param(cs.callees[0], c, arg):
-                                mutated_at.append(n)
-            if isinstance(a, ast.Assign) and any(dotted(t) == name for t in a.targets):
+                if isinstance(c, ast.Call) and isinstance(c.func, ast.Attribute) and dotted(c.func.value) == name and c.func.attr == "clear":
+                    reset_at.append(n)
+            if isinstance(a, ast.Assign) and any(dotted(t) == name for t in a.targets) and _fresh(a.value):
                 reset_at.append(n)  # rebinding (needs `global`) — counted as re-initialisation
             if isinstance(a, ast.Assign) and any(isinstance(t, ast.Subscript) and isinstance(t.slice, ast.Slice) and dotted(t.value) == name
-                                                 and t.slice.lower is None and t.slice.upper is None for t in a.targets):
+                                                 and t.slice.lower is None and t.slice.upper is None for t in a.targets) and _fresh(a.value):
                 reset_at.append(n)
             if isinstance(a, ast.Delete) and any(isinstance(t, ast.Subscript) and dotted(t.value) == name for t in a.targets):
                 reset_at.append(n)
@@ -123,6 +163,11 @@ def rule_D6_ownership(tree: Tree) -> RuleResult:
             for n in body_walk(f.node):
                 if isinstance(n, (ast.Global, ast.Nonlocal)):
                     bad.append(f"{f.qualname}: {src(n)}")
+                # one mutable object bound to two attributes (`self.a = self.b = []`): the two "separate" containers are the same list
+                if isinstance(n, ast.Assign) and len(n.targets) > 1 and _is_mutable_literal(n.value):
+                    attrs = [dotted(t) for t in n.targets if isinstance(t, ast.Attribute)]
+                    if len(attrs) > 1:
+                        bad.append(f"{f.qualname}: `{src(n, 70)}` binds one container to {attrs}: state meant to be separate (per direction) is shared")
                 # instance attribute bound to a module-level mutable object (alias shared by all instances)
                 if isinstance(n, (ast.Assign, ast.AnnAssign)) and getattr(n, "value", None) is not None:
                     tg0 = n.targets[0] if isinstance(n, ast.Assign) else n.target
@@ -346,3 +391,72 @@ def rule_attr_kinds(tree: Tree) -> RuleResult:
                               f"{cn}: {[(a, {k: v for k, v in ks.items()}) for a, ks in bad.items()][:2]} — the same attribute is (re)created with different container kinds on paths reachable from run(); "
                               f"code written for one kind (set union, membership add) raises on the other and the flow's later packets are dropped", c.module.relpath))
     return r
+
+
+def rule_D6_outfile(tree: Tree) -> RuleResult:
+    """D6o — the output file's content does not depend on what an earlier run left at the same path: the object handed to the pcapng writer
+    is opened truncating (mode 'w…', or os.open flags with O_TRUNC)."""
+    r = RuleResult("D6o", "the output path is opened truncating (mode 'w', or O_TRUNC): nothing an earlier run left in the file survives")
+    run = tree.func("main", "run")
+    wr = [n for n in body_walk(run.node) if isinstance(n, ast.Call) and dotted(n.func) == "dpkt.pcapng.Writer"]
+    if not wr:
+        raise AnchorMissing("main.run: no dpkt.pcapng.Writer(...) call")
+    for w in wr:
+        r.instances += 1
+        arg = w.args[0] if w.args else next((k.value for k in w.keywords if k.arg in ("fileobj", "f")), None)
+        opens: List[ast.Call] = []
+        if isinstance(arg, ast.Call):
+            opens = [arg]
+        elif isinstance(arg, ast.Name):
+            from ..dataflow import reaching_definitions
+            cfg = cfg_of(run.node)
+            rd = reaching_definitions(cfg)
+            for d in sorted(rd[cfg.node_of(w)].get(arg.id, ())):
+                a = cfg.nodes[d].ast
+                if isinstance(a, ast.Assign) and isinstance(a.value, ast.Call):
+                    opens.append(a.value)
+                elif isinstance(a, (ast.With, ast.withitem)):
+                    for it in (a.items if isinstance(a, ast.With) else [a]):
+                        if isinstance(it.optional_vars, ast.Name) and it.optional_vars.id == arg.id and isinstance(it.context_expr, ast.Call):
+                            opens.append(it.context_expr)
+                else:
+                    opens.append(ast.Call(func=ast.Name("?", ast.Load()), args=[], keywords=[]))
+        ok = bool(opens)
+        why = "no opening call found for the writer's file object"
+        for o in opens:
+            t, why1 = _truncating(o)
+            if not t:
+                ok, why = False, why1
+        r.sample({"writer": src(w, 60), "opened_by": [src(o, 70) for o in opens]})
+        r.ob(ok, Finding("D6o", "main:run:outfile-truncated",
+                         f"the output file must be opened truncating so that nothing a previous run left at the path survives: {why}", run.module.line(w)))
+    return r
+
+
+def _truncating(c: ast.Call):
+    fn = dotted(c.func) or ""
+    last = fn.split(".")[-1]
+    if fn == "os.fdopen" or fn == "fdopen":
+        inner = c.args[0] if c.args else None
+        if isinstance(inner, ast.Call) and (dotted(inner.func) or "") in ("os.open", "open") and len(inner.args) >= 2:
+            flags = {dotted(x) for x in ast.walk(inner.args[1]) if isinstance(x, (ast.Attribute, ast.Name))}
+            if any((f or "").endswith("O_TRUNC") for f in flags):
+                return True, ""
+            return False, f"`{src(inner, 70)}` has no O_TRUNC"
+        return False, f"`{src(c, 70)}`: descriptor of unknown origin"
+    if last in ("open", "FileIO"):
+        mode = None
+        cand = list(c.args[1:2]) + [k.value for k in c.keywords if k.arg == "mode"]
+        if fn != "open" and last == "open" and c.args and isinstance(try_fold(c.args[0]), str):
+            cand = [c.args[0]] + cand  # Path(...).open("wb")
+        for a in cand:
+            v = try_fold(a)
+            if isinstance(v, str):
+                mode = v
+                break
+        if mode is None:
+            return False, f"`{src(c, 70)}` has no constant write mode"
+        if "w" in mode and "a" not in mode and "r" not in mode:
+            return True, ""
+        return False, f"`{src(c, 70)}` opens with mode {mode!r}, which does not truncate"
+    return False, f"`{src(c, 70)}` is not a recognised truncating open"
